@@ -165,12 +165,13 @@ instances were created; in particular no two instances share an id, and `Compone
 `get_context_data`, data source `selfId`) is the id under which the instance's renderer was queued
 (`Djc.Proofs.Tree.GoodR.id`). -/
 theorem component_tree_ids_distinct (env : Env) (hlib : Djc.Proofs.Tree.GoodLib env) (fuel : Nat)
-    (name : Str) (kwargs : List (Str × Expr)) (only dyn : Bool) (ctx : Ctx) (w w' : World) (toks : List Tok)
-    (hd : isDynName name = false) (hc : Djc.Proofs.Plain.ctxFree ctx = true) (hw : Djc.Proofs.Tree.WInv w)
-    (h : (renderCompTag env fuel name kwargs only dyn [] ctx).run.run w = (.ok toks, w')) :
+    (name : Str) (kwargs : List (Str × Expr)) (only dyn : Bool) (body : List Node) (ctx : Ctx) (w w' : World) (toks : List Tok)
+    (hd : isDynName name = false) (hb : Djc.Proofs.Tree.fbody body = true) (hc : Djc.Proofs.Plain.ctxFree ctx = true)
+    (hw : Djc.Proofs.Tree.WInv w)
+    (h : (renderCompTag env fuel name kwargs only dyn body ctx).run.run w = (.ok toks, w')) :
     ∃ evs, w'.events = w.events ++ evs ∧
       Djc.Proofs.Tree.gcdIds evs = List.range' w.nextId (w'.nextId - w.nextId) ∧ (Djc.Proofs.Tree.gcdIds evs).Nodup := by
-  obtain ⟨evs, he, hg⟩ := ((Djc.Proofs.Tree.stmt_all env hlib fuel).tag name kwargs only dyn ctx w toks w' hd hc hw h).evs
+  obtain ⟨evs, he, hg⟩ := ((Djc.Proofs.Tree.stmt_all env hlib fuel).tag name kwargs only dyn body ctx w toks w' hd hb hc hw h).evs
   exact ⟨evs, he, hg, by rw [hg]; exact List.nodup_range'⟩
 
 /-- **Every placeholder stands for exactly one queued instance.**  Inside a component's template (any context, any
@@ -204,13 +205,14 @@ attributes the parent handed down plus its own id (`Djc.Proofs.Stitch.Exp`).  Wi
 `nested_untouched` (above) this reads: every top-level element of an instance's output carries its id, nothing below
 does; with `root_placeholder_tagged`: a component that is itself a root of its parent inherits the parent's ids. -/
 theorem page_is_expansion_of_root_instance (env : Env) (hlib : Djc.Proofs.Tree.GoodLib env) (fuel : Nat)
-    (name : Str) (kwargs : List (Str × Expr)) (only dyn : Bool) (ctx : Ctx) (w w' : World) (toks : List Tok)
-    (hd : isDynName name = false) (hc : Djc.Proofs.Plain.ctxFree ctx = true) (hw : Djc.Proofs.Tree.WInv w)
+    (name : Str) (kwargs : List (Str × Expr)) (only dyn : Bool) (body : List Node) (ctx : Ctx) (w w' : World) (toks : List Tok)
+    (hd : isDynName name = false) (hb : Djc.Proofs.Tree.fbody body = true) (hc : Djc.Proofs.Plain.ctxFree ctx = true)
+    (hw : Djc.Proofs.Tree.WInv w)
     (hext : isExtracting ctx = false)
     (hpar : Djc.Proofs.Tree.parentOf (if only || env.isolated then isolatedCopy ctx else ctx) = none)
-    (h : (renderCompTag env fuel name kwargs only dyn [] ctx).run.run w = (.ok toks, w')) :
+    (h : (renderCompTag env fuel name kwargs only dyn body ctx).run.run w = (.ok toks, w')) :
     Exp env [Tok.hole w.nextId []] toks :=
-  tree_root_output env hlib fuel name kwargs only dyn ctx w w' toks hd hc hw hext hpar h
+  tree_root_output env hlib fuel name kwargs only dyn body ctx w w' toks hd hb hc hw hext hpar h
 
 open Djc.Proofs.Stitch in
 /-- **A root element carries the inherited ids and the instance's own id** — at whatever depth the instance sits: in the
